@@ -100,6 +100,7 @@ func realRefHeap(name, srt string) bool {
 }
 
 type modInfo struct {
+	sinceEntry bool // fresh writes may reach objects allocated by this function before the loop
 	pointee   bool // changed only through pointee(p) writes inside the loop
 	sort      string
 	freshOnly bool
@@ -371,7 +372,11 @@ func (fx *FnExec) loopEnter(st *State, fr *frame, h *loopHdr, b, pred *ssa.Basic
 			}
 			if mi.hasFresh && arrayIndexSort(mi.sort) == "Int" {
 				nv := fx.freshConst(name+"@loop", mi.sort)
-				st.assume(fmt.Sprintf("(forall ((q.r Int)) (! (=> (<= q.r %s) (= (select %s q.r) (select %s q.r))) :pattern ((select %s q.r))))", allocAtEntry, nv, cur, nv))
+				bound := allocAtEntry
+				if mi.sinceEntry {
+					bound = fx.entryAlloc
+				}
+				st.assume(fmt.Sprintf("(forall ((q.r Int)) (! (=> (<= q.r %s) (= (select %s q.r) (select %s q.r))) :pattern ((select %s q.r))))", bound, nv, cur, nv))
 				cur = nv
 			} else if mi.hasFresh {
 				cur = fx.freshConst(name+"@loop", mi.sort)
@@ -382,7 +387,11 @@ func (fx *FnExec) loopEnter(st *State, fr *frame, h *loopHdr, b, pred *ssa.Basic
 		nv := fx.freshConst(name+"@loop", mi.sort)
 		st.heapSet(name, mi.sort, nv)
 		if mi.freshOnly && arrayIndexSort(mi.sort) == "Int" {
-			st.assume(fmt.Sprintf("(forall ((q.r Int)) (! (=> (<= q.r %s) (= (select %s q.r) (select %s q.r))) :pattern ((select %s q.r))))", allocAtEntry, nv, old, nv))
+			bound := allocAtEntry
+			if mi.sinceEntry {
+				bound = fx.entryAlloc
+			}
+			st.assume(fmt.Sprintf("(forall ((q.r Int)) (! (=> (<= q.r %s) (= (select %s q.r) (select %s q.r))) :pattern ((select %s q.r))))", bound, nv, old, nv))
 		} else if fal := fx.topFrameAllowed(st); fal != nil {
 			// automatic loop invariant: the function's frame. What held before
 			// the loop is assumed for the havocked value and re-checked on
@@ -701,7 +710,7 @@ func (fx *FnExec) loopMods(st *State, fr *frame, h *loopHdr) map[string]modInfo 
 	for k, mi := range p1 {
 		// a variable written only at objects allocated inside the loop is
 		// unchanged for everything that existed before
-		if !mi.freshOnly {
+		if !mi.freshOnly || mi.sinceEntry {
 			names[k] = true
 		}
 	}
@@ -931,7 +940,16 @@ func (ms *modScan) scanCall(fn *ssa.Function, cc *ssa.CallCommon, site ssa.Instr
 		switch b.Name() {
 		case "append":
 			es := fx.elemSort(cc.Args[0].Type().Underlying().(*types.Slice).Elem())
-			ms.add("Mem."+sanitize(es), "(Array Int "+arrOf(es)+")", true)
+			name, srt := "Mem."+sanitize(es), "(Array Int "+arrOf(es)+")"
+			switch {
+			case ms.isFreshBase(cc.Args[0]):
+				ms.add(name, srt, true)
+			case localBuilt(cc.Args[0], map[ssa.Value]bool{}):
+				ms.add(name, srt, true)
+			default:
+				// may write in place into an array that exists elsewhere
+				ms.add(name, srt, false)
+			}
 		case "copy":
 			es := fx.elemSort(cc.Args[0].Type().Underlying().(*types.Slice).Elem())
 			ms.add("Mem."+sanitize(es), "(Array Int "+arrOf(es)+")", false)
